@@ -132,7 +132,8 @@ def strategy_(draw, tier):
         mpath = d.choice([None, None, '/data/ref/index', '/home/ren\u00e9e/r\u00e9f\u00e9rence',
             '/srv/\u57fa\u56e0\u7ec4/GRCh38', '/mnt/Z\u00fcrich/\u03b2-test'])
         files.append(dict(circ=is_circ, records=recs, idx=d.chance(0.5), meta_path=mpath,
-            tamper=d.choice([None, None, None, 'append', 'flip', 'nochecksum'])))
+            tamper=d.choice([None, None, None, 'append', 'flip', 'nochecksum']),
+            touch_idx=d.chance(0.5)))
     return dict(files=files)
 
 
@@ -303,7 +304,10 @@ def prop(case, ctx):
     linear = {}
     for f, p in zip(case['files'], paths):
         for r, line in zip(f['records'], body(p)):
-            linear.setdefault(r['tx'], Counter())[line] += 1
+            # the kind of object matters too: a circRNA line read as a variant record writes
+            # the same text but is not a circRNA for the caller
+            cls = 'CircRNAModel' if r['kind'] == 'circRNA' else 'VariantRecord'
+            linear.setdefault(r['tx'], Counter())[(cls, line)] += 1
 
     def via_pool():
         pool = VariantRecordPoolOnDisk(gvf_files=list(paths), anno=None, genome=None)
@@ -313,7 +317,7 @@ def prop(case, ctx):
                 c = Counter()
                 for ptr in pl.pointers[key]:
                     for rec in ptr.load():
-                        c[rec.to_string()] += 1
+                        c[(type(rec).__name__, rec.to_string())] += 1
                 res[key] = c
         return res
 
@@ -375,6 +379,10 @@ def prop(case, ctx):
         else:
             idx.write_text(''.join(l for l in idx.read_text().splitlines(True)
                 if 'CHECKSUM' not in l))
+        if f.get('touch_idx'):
+            # the .idx ends up the newer file (copied last, touched, extracted from an archive)
+            st_ = os.stat(p)
+            os.utime(idx, (st_.st_atime + 100, st_.st_mtime + 100))
         tampered = True
         try:
             via_pool()
@@ -397,6 +405,8 @@ def prop(case, ctx):
         out.label('non_ascii_metadata')
     if tampered:
         out.label('stale_idx_rejected')
+        if any(f.get('touch_idx') and f['idx'] and f['tamper'] for f in case['files']):
+            out.label('stale_idx_newer_than_gvf')
     if any(r.get('twin') for f in case['files'] for r in f['records']):
         out.label('same_anchor_twin_records')
     out.label(f'files:{len(paths)}')
